@@ -133,6 +133,22 @@ func buildStream(sp StreamSpec, required int64) *Stream {
 			}
 		}
 		return &Stream{data: d}
+	case "pokeredge":
+		// the required bytes carry a pattern histogram whose poker P-value is the
+		// closest one to alpha on the side given by Bias (1: just above or equal,
+		// 0: just below) for the documented m of that length; the tail is PRF
+		d := make([]byte, required+int64(sp.Tail))
+		var e []byte
+		if required >= 16 {
+			e = pokerEdgeBytes(int(required), SingleM(int(required)*8), sp.Bias == 1, sp.Seed)
+		}
+		if e == nil {
+			fillPRF(d[:required], sp.Seed)
+		} else {
+			copy(d, e)
+		}
+		fillPRF(d[required:], sp.TailSd^0x7a11)
+		return &Stream{data: d}
 	case "biased":
 		d := make([]byte, required+int64(sp.Tail))
 		r := simctl.NewRand(sp.Seed)
